@@ -2,6 +2,8 @@
 from rules import durability as D
 from rules import units as U
 from rules import locking as L
+from rules import recovery as R
+from rules import builders as B
 
 
 def run(ctx):
@@ -19,6 +21,8 @@ def run(ctx):
     ctx.run(D.flw18_segment_id_consistency)
     ctx.run(D.ord15_store_not_conditional_on_presence)
     ctx.run(D.erv4_no_error_discarded)
+    ctx.run(R.ord18_no_flusher_before_replay_is_complete)
+    ctx.run(B.pan7_empty_batch_is_applicable)
     return ctx.finish(
         'Static analysis of compiler MIR: structural clauses of the write-ahead protocol that are '
         'necessary for "acknowledged data survives restart" are decided on every CFG path '
